@@ -11,7 +11,7 @@ ID = 'C01'
 LEVEL = 'exploration'
 N = {'quick': 48000, 'thorough': 1200000}
 RULE = ('election cases from the structured mixture generator (all 11 rules x accepted options; '
-        'strict rankings, withdrawn/undeclared sets, tie orders); non-trivial = count has >= 2 rounds, '
+        'strict rankings, withdrawn/undeclared sets under every rule, tie orders; 2 % of the Gregory counts with more than 2^53 ballots); non-trivial = count has >= 2 rounds, '
         'or ends through the elect/defeat-remaining epilogue, or has a batch exclusion, or has '
         'withdrawn/undeclared candidates; distinct = distinct canonical case JSON')
 GUARDS = {'all': {'seats>supported': 0.02, 'batch': 0.02, 'withdrawn': 0.05}}
